@@ -13,10 +13,11 @@ Clauses (each a sentence of the statement of C03):
     later-reader-can-read     "... a later reader of the file sees": the file written after an accepted
                               assignment opens and still holds the entity
     reader-sees-assigned      re-opened getter == assigned value
-    memory-equals-assigned    live getter == assigned value  ("the in-memory value")
-    stored-equals-assigned    raw HDF5 attribute / dataset == assigned value ("the stored value")
     memory-equals-stored      live getter == re-opened getter for EVERY attribute of the entity
-                              ("the in-memory value and the stored value never differ")
+                              ("the in-memory value and the stored value never differ"; with
+                              reader-sees-assigned this also gives live getter == assigned)
+    stored-equals-assigned    raw HDF5 attribute / dataset == assigned value ("the stored value")
+Per assigned attribute the first failing clause of that cascade is reported.
 """
 
 from __future__ import annotations
@@ -31,7 +32,7 @@ import numpy as np
 
 from . import domains, fixtures, world
 
-FLOAT_NDV = 1.175494351e-38
+FLOAT_NDV = 1.17549435e-38
 
 # --------------------------------------------------------------------------- rules
 # coupled by the API: the setter of the key overwrites / defines the getter of the values
@@ -57,6 +58,11 @@ RULE_EXCLUDED = {
     ("RootGroup", "allow_rename"): "hard-wired by RootGroup.__init__",
     ("CommentsData", "name"): "the format recognises comments by the name 'UserComments'",
     ("VisualParameters", "name"): "the format recognises visual parameters by the name 'Visual Parameters'",
+    ("FilenameData", "public"): "hard-wired by FilenameData.__init__ (public = False)",
+    ("IntegratorPoints:type", "name"): "hard-wired by IntegratorPoints.__init__",
+    ("IntegratorPoints:type", "description"): "hard-wired by IntegratorPoints.__init__",
+    ("NeighbourhoodSurface:type", "name"): "hard-wired by NeighbourhoodSurface.__init__",
+    ("NeighbourhoodSurface:type", "description"): "hard-wired by NeighbourhoodSurface.__init__",
 }
 NOT_OBSERVED = set(domains.SKIP) | {"tag", "default_collocation_distance", "property_groups", "clipping_ids", "attribute_map"}
 
@@ -155,7 +161,7 @@ def expected(attr, assigned, before, entity):
     if attr == "entity_type":
         return "type:" + assigned.uid.hex
     if attr == "contributors":
-        return [str(x) for x in assigned]
+        return canon(np.asarray([str(x) for x in assigned]))
     return c
 
 
@@ -176,14 +182,18 @@ def target_names(cls: str) -> list:
     return ["self", "type"] + SUB_TARGETS.get(cls, [])
 
 
-def _hole(ws, group, which=0):
-    kids = [c for c in ws.fetch_children(group) if type(c).__name__.endswith("Drillhole")] or [c for c in group.children if type(c).__name__.endswith("Drillhole")]
-    kids.sort(key=lambda c: c.name)
-    return kids[which]
+def _holes(ws, group):
+    kids = [c for c in (ws.fetch_children(group) or group.children) if type(c).__name__.endswith("Drillhole")]
+    if not kids:
+        kids = [c for c in group.children if type(c).__name__.endswith("Drillhole")]
+    return kids
 
 
-def resolve(ws, root_entity, cls, target):
-    """The target object inside workspace `ws` given the fixture entity of that workspace."""
+def resolve(ws, root_entity, cls, target, memo=None):
+    """The target object inside workspace `ws` given the fixture entity of that workspace.
+    `memo` remembers the identifiers chosen at the first resolution so that later resolutions
+    (after a re-open, after a rename) find the SAME entity."""
+    memo = {} if memo is None else memo
     if cls == "Workspace":
         return ws
     ent = root_entity
@@ -196,20 +206,27 @@ def resolve(ws, root_entity, cls, target):
     if target == "type.value_map":
         return ent.entity_type.value_map
     if target.startswith("hole"):
-        hole_a, hole_b = _hole(ws, ent, 0), _hole(ws, ent, 1)
+        holes = _holes(ws, ent)
+        if "hole_a" not in memo:
+            by_name = sorted(holes, key=lambda c: c.name)
+            memo["hole_a"], memo["hole_b"] = by_name[0].uid, by_name[1].uid
+        hole_a = [h for h in holes if h.uid == memo["hole_a"]][0]
+        hole_b = [h for h in holes if h.uid == memo["hole_b"]][0]
         if target == "hole":
             return hole_a
         if target == "hole.type":
             return hole_a.entity_type
-        if target == "hole.log":
-            return hole_a.get_data("log")[0]
-        if target == "hole.log.type":
-            return hole_a.get_data("log")[0].entity_type
-        if target == "hole.litho":
-            return hole_b.get_data("litho")[0]
+        if target in ("hole.log", "hole.log.type", "hole.litho"):
+            hole, name = (hole_b, "litho") if target == "hole.litho" else (hole_a, "log")
+            if target not in memo:
+                memo[target] = hole.get_data(name)[0].uid
+            data = [d for d in hole.get_entity(memo[target]) if d is not None][0]
+            return data.entity_type if target.endswith(".type") else data
         if target == "hole.pg":
-            hole_a.get_data("log")
-            return [p for p in hole_a.property_groups if p.name == "depth_0"][0]
+            hole_a.get_entity("log")  # concatenated children are created lazily
+            if target not in memo:
+                memo[target] = [p for p in hole_a.property_groups if p.name == "depth_0"][0].uid
+            return [p for p in hole_a.property_groups if p.uid == memo[target]][0]
     raise ValueError(target)
 
 
@@ -340,8 +357,7 @@ def raw_value(b, loc, entity_cls_mro, attr, amap):  # noqa: C901  pylint: disabl
                     return True, out[0] if len(out) == 1 else out
                 if isinstance(val, np.ndarray) and val.dtype.kind == "f":
                     arr = val.astype(float)
-                    arr[val == np.float32(FLOAT_NDV)] = np.nan
-                    arr[val == FLOAT_NDV] = np.nan
+                    arr[np.abs(arr - FLOAT_NDV) < 1e-44] = np.nan  # the format's float no-data code
                     return True, canon(arr)
                 if "BooleanData" in entity_cls_mro:
                     return True, canon(np.asarray(val).astype(bool))
@@ -403,7 +419,8 @@ def execute(history) -> dict:
             if cls != "Workspace" and ent is None:
                 raise LookupError("fixture entity absent after re-opening")
         obs["phase"] = "resolve"
-        target = resolve(ws, ent, cls, tname)
+        memo = {}
+        target = resolve(ws, ent, cls, tname, memo)
     except Exception as err:  # pylint: disable=broad-except
         obs["fatal"] = f"{type(err).__name__}: {str(err)[:200]}"
         return obs
@@ -419,7 +436,8 @@ def execute(history) -> dict:
             continue
         value = vals[vi]
         before = read(target, attr)
-        step = {"attr": attr, "vi": vi, "defining": defining_class(target, attr), "is_none": value is None}
+        step = {"attr": attr, "vi": vi, "defining": defining_class(target, attr), "is_none": value is None, "before": before,
+                "field_defining": defining_class(target, _field(attr, type(target).__name__))}
         try:
             exp = expected(attr, value, before, target)
             setattr(target, attr, value)
@@ -432,7 +450,7 @@ def execute(history) -> dict:
         if history.get("mid") and k == 0 and len(ops) > 1:
             try:
                 ws, ent = _reopen_rw(ws, ent)
-                target = resolve(ws, ent, cls, tname)
+                target = resolve(ws, ent, cls, tname, memo)
             except Exception as err:  # pylint: disable=broad-except
                 obs["fatal_after_assign"] = f"mid re-open: {type(err).__name__}: {str(err)[:200]}"
                 return obs
@@ -450,7 +468,7 @@ def execute(history) -> dict:
         ent_r = None if ent is None else fixtures.find(ws_r, ent)
         if cls != "Workspace" and ent_r is None:
             raise LookupError("fixture entity absent from the re-opened file")
-        target_r = resolve(ws_r, ent_r, cls, tname)
+        target_r = resolve(ws_r, ent_r, cls, tname, memo)
         if target_r is None:
             raise LookupError("target absent from the re-opened file")
         obs["reopen"] = snapshot(target_r)
@@ -496,8 +514,26 @@ def _derived(step, tcls):
     return False
 
 
-def judge(history, obs) -> list:  # noqa: C901  pylint: disable=too-many-branches,too-many-locals
-    """[(clause, witness, detail)] - see the module docstring for the clauses."""
+def kind_tag(mro) -> str:
+    for name, tag in (("Workspace", "project"), ("DataType", "DataType"), ("ObjectType", "ObjectType"), ("GroupType", "GroupType"),
+                      ("Data", "data"), ("ObjectBase", "object"), ("RootGroup", "root"), ("Group", "group")):
+        if name in mro:
+            return tag
+    return ""
+
+
+def rule_excluded(history, obs, attr):
+    cls, tname = history["cls"], history.get("target", "self")
+    for (who, what), why in RULE_EXCLUDED.items():
+        if what == attr and (who in obs["mro"] or who == f"{cls}:{tname}"):
+            return why
+    return None
+
+
+def judge(history, obs) -> list:  # noqa: C901  pylint: disable=too-many-branches,too-many-locals,too-many-statements
+    """[(clause, witness, detail)] - see the module docstring for the clauses.  Per assigned
+    attribute only the first failing clause of the cascade reader-sees-assigned >
+    memory-equals-stored > stored-equals-assigned is reported (one defect, one signature)."""
     viol = []
     cls, tname = history["cls"], history.get("target", "self")
     if "fatal" in obs:
@@ -512,52 +548,67 @@ def judge(history, obs) -> list:  # noqa: C901  pylint: disable=too-many-branche
     if any(s["status"] == "refused" for s in steps):
         return viol  # a refused assignment may leave partial state; the statement speaks of successful ones only
     tag = obs["storage"]
+    kind = kind_tag(obs["mro"])
+
+    sub = f"({tname})" if tname == "hole.type" else ""  # object types of concatenated objects are read differently
 
     def wit(step, extra=""):
-        return f"{step['defining']}.{step['attr']}{'=None' if step['is_none'] else ''}{tag}{extra}"
+        # views (convenience setters) are named by the stored field they write: one defect, one signature
+        defining, attr = step.get("field_defining") or step["defining"], _field(step["attr"], tcls)
+        if attr == step["attr"]:
+            defining = step["defining"]
+        base = f"{defining}.{attr}"
+        if defining in ("Entity", "EntityContainer", "EntityType") and kind:
+            base += f"@{kind}"
+        return f"{base}{'=None' if step['is_none'] else ''}{tag}{sub}{extra}"
 
     if "fatal_after_assign" in obs:
-        for s in accepted[-1:]:
-            viol.append(("later-reader-can-read", wit(s), {"error": obs["fatal_after_assign"], "class": tcls}))
+        s = accepted[-1]
+        field = _field(s["attr"], tcls)
+        witness = f"{field}{tag}:index-without-data" if tag == "[concatenated]" and "NoneType" in obs["fatal_after_assign"] else wit(s)
+        viol.append(("later-reader-can-read", witness, {"error": obs["fatal_after_assign"], "class": tcls, "assigned": s["attr"]}))
         return viol
     live, reop, raw = obs["live"], obs["reopen"], obs["raw"]
     base = baseline(cls, tname, bool(history.get("pre") or history.get("mid")))
     if base and base[0] == "!fatal":
         base = ()
-    excluded = {a for (c, a) in RULE_EXCLUDED if c in obs["mro"]}
     fields = [_field(s["attr"], tcls) for s in accepted]
+    any_excluded = False
     for idx, s in enumerate(accepted):
         attr = s["attr"]
-        if attr in excluded or attr in domains.IN_MEMORY_ONLY or f"{tcls}.{attr}" in domains.IN_MEMORY_ONLY:
+        if rule_excluded(history, obs, attr):
+            any_excluded = True
             continue
-        if tcls.endswith("PropertyGroup") and attr == "allow_delete":
+        if attr in domains.IN_MEMORY_ONLY or (tcls.endswith("PropertyGroup") and attr == "allow_delete"):
             continue
         later = accepted[idx + 1:]
         clobbered = any(
             _field(t["attr"], tcls) == fields[idx] or attr in COUPLES.get(t["attr"], ()) or _field(t["attr"], tcls) == attr or fields[idx] == t["attr"]
             for t in later
         )
+        if any(_field(t["attr"], tcls) == fields[idx] for t in later):
+            continue  # a later assignment writes the same stored field: judged there
         detail = {"class": tcls, "assigned": s["expected"], "live": live.get(attr), "reopened": reop.get(attr), "raw": raw.get(attr, "(n/a)"), "baseline_quirks": list(base)}
-        if live.get(attr) != reop.get(attr):
+        judged_assigned = not (clobbered or _derived(s, tcls) or (tcls == "Grid2D" and attr == "dip" and live.get("vertical")))
+        if judged_assigned and not matches(s["expected"], reop.get(attr)):
+            if s["is_none"] and attr in raw and raw[attr] in (None, s.get("before")) and attr not in KEY_MAP:
+                # one mechanism for every scalar of an attribute map: None is skipped by the writer, the old attribute stays
+                viol.append(("reader-sees-assigned", "attribute-map-scalar=None:old-value-left-on-file", dict(detail, attribute=f"{s['defining']}.{attr}")))
+            else:
+                viol.append(("reader-sees-assigned", wit(s), detail))
+        elif live.get(attr) != reop.get(attr):
             viol.append(("memory-equals-stored", wit(s), detail))
-        if clobbered or _derived(s, tcls):
-            continue
-        if attr in COUPLES.get("vertical", ()) and tcls == "Grid2D" and live.get("vertical"):
-            continue  # Grid2D.dip while vertical is true: the getter defines dip = 90
-        if not matches(s["expected"], live.get(attr)):
-            viol.append(("memory-equals-assigned", wit(s), detail))
-        if not matches(s["expected"], reop.get(attr)):
-            viol.append(("reader-sees-assigned", wit(s), detail))
-        if attr in raw and not matches(s["expected"], raw[attr]) and not _raw_equivalent(attr, s["expected"], raw[attr]):
+        elif judged_assigned and attr in raw and not matches(s["expected"], raw[attr]) and not _raw_equivalent(attr, s["expected"], raw[attr]):
             viol.append(("stored-equals-assigned", wit(s), detail))
     # every other attribute of the entity: in-memory == stored
-    assigned_names = {s["attr"] for s in accepted}
-    touched = set(fields) | assigned_names
+    if any_excluded:
+        return viol
+    touched = set(fields) | {s["attr"] for s in accepted}
     for s in accepted:
         touched |= COUPLES.get(s["attr"], set())
     last = accepted[-1]
     for attr in sorted(set(live) | set(reop)):
-        if attr in assigned_names or attr in base or attr in excluded:
+        if attr in touched or _field(attr, tcls) in touched or attr in base or rule_excluded(history, obs, attr):
             continue
         if live.get(attr) != reop.get(attr):
             viol.append(
